@@ -335,11 +335,14 @@ class Machine:
                 self.illegal("unset of empty channel")
             th.chan[key] = None
             return
-        st = th.chan[key]
         if act == "PUSH":
             self.push(th, model, e["chan"], e["label"])
+            if e["mcv"] == "KCO":
+                th.out_of_cpu = True
         elif act == "POP":
             self.pop(th, model, e["chan"], e["label"])
+            if e["mcv"] == "KCI":
+                th.out_of_cpu = False
 
     def push(self, th, model, chan, label):
         st = th.chan[(model, chan)]
@@ -599,7 +602,12 @@ class Machine:
             body.state = "running"
             body.owner = th
             stack.append(body)
-            self.push(th, model, ssch, TASK_BODY_LABEL[model])
+            ss = th.chan[(model, ssch)]
+            if model == "nosv" and ss and ss[-1] == TASK_BODY_LABEL[model] and len(ss) < STACK_LIMIT:
+                # nOS-V documents nesting a body right over a paused one
+                ss.append(TASK_BODY_LABEL[model])
+            else:
+                self.push(th, model, ssch, TASK_BODY_LABEL[model])
             return
         if body is None:
             self.illegal("event on unknown body")
@@ -610,6 +618,10 @@ class Machine:
         want = {"p": "running", "r": "paused", "e": "running"}[v]
         if body.state != want or body.owner is not th or top is not body:
             self.illegal("task %s on body in state %s (owner/top mismatch)" % (v, body.state))
+            # lenient continuation (only matters for what is generated next):
+            # a pause/resume of a body of this stack that is not on top takes effect
+            if body.state == want and body.owner is th and v in ("p", "r"):
+                body.state = "paused" if v == "p" else "running"
             return
         if v == "p":
             body.state = "paused"
